@@ -56,17 +56,25 @@ def expected_view(res):
     return {"kind": res["kind"], "sel": res["sel"]}
 
 
-def build_objects(pool):
+def build_objects(pool, route=0):
+    """route 0: Schema(rules); route k > 0: Schema(rules[:k-1]) with Schema(rules[k-1:]) added at the empty root -
+    the same schema by the specification, however it was assembled"""
     import valida
 
     rules = [decode.real_rule(r) for r in pool["rules"]]
-    schema = valida.Schema(list(rules))
+    if route:
+        schema = ruledrv.assemble(rules, (route - 1) % (len(rules) + 1))
+    else:
+        schema = valida.Schema(list(rules))
     docs = [dec_val(d) for d in pool["docs"]]
     return schema, rules, docs
 
 
 def replay_behaviour(pool, beh):
-    out0, built = outcome_of(lambda: build_objects(pool))
+    import zlib
+    h = zlib.crc32(repr([x["call"] for x in beh["hist"]]).encode())
+    route = 0 if h % 2 else 1 + (h // 2) % (len(pool["rules"]) + 1)
+    out0, built = outcome_of(lambda: build_objects(pool, route))
     if out0 != "ok":
         raise Mismatch("ConstructionRaises", f"building the shared schema through the public API: {out0}")
     schema, rules, docs = built
